@@ -31,8 +31,11 @@ def parse(text: str, statement_stream_processor: "StatementStreamProcessor", *, 
         pr.visit(_get_grammar().parse(text))  # type: ignore
     except _error.Error as ex:
         # Inject error location. If this exception is being propagated from a recursive instance, it already has
-        # its error location populated, so nothing will happen here.
-        ex.set_error_location_if_unknown(line=pr.current_line_number)
+        # its error location populated, so nothing will happen here. If only its path is known, then the error was
+        # raised while finalizing a definition this one refers to, and the current line number, which belongs to
+        # this definition rather than to the file named by the path, shall not be attached to it.
+        if ex.path is None:
+            ex.set_error_location_if_unknown(line=pr.current_line_number)
         raise ex
     except parsimonious.ParseError as ex:
         raise DSDLSyntaxError("Syntax error", line=int(ex.line())) from None  # type: ignore
